@@ -70,7 +70,7 @@ def _run_case(case, r):
                      f'C06:{fam}', case)
         r.outcome(f'{fam}:history')
         return r
-    g = sorted(set(A.tier_grid(tier) + A.BOUNDARY + A.TINY))
+    g = sorted(set(A.tier_grid(tier) + A.BOUNDARY + A.TINY + A.NEAR))
     m = len(g)
     P = grid_pairs(g)
     cop = make_biv(fam, th)
